@@ -552,6 +552,23 @@ def run(repo: Repo) -> Result:
     if inner is None:
         res.add("C04-PREC", be.qual, "shape", "BooleanExpression.__str__: recursive helper not found", be.file, be.line)
     else:
+        # local names are spelling: the locals handed on as precedence / binding in the recursive
+        # call on `.left` are renamed to the names the rule speaks of
+        p0 = inner.args.args[0].arg if inner.args.args else "expression"
+        ren = {}
+        for c0 in ast.walk(inner):
+            if isinstance(c0, ast.Call) and is_name(c0.func, inner.name) and c0.args and text(c0.args[0]) == f"{p0}.left" and len(c0.args) >= 3:
+                if isinstance(c0.args[1], ast.Name):
+                    ren[c0.args[1].id] = "precedence"
+                if isinstance(c0.args[2], ast.Name):
+                    ren[c0.args[2].id] = "binding"
+        if ren and set(ren.values()) == {"precedence", "binding"} and ren != {"precedence": "precedence", "binding": "binding"}:
+            import copy as _copy
+
+            inner = _copy.deepcopy(inner)
+            for n in ast.walk(inner):
+                if isinstance(n, ast.Name) and n.id in ren:
+                    n.id = ren[n.id]
         mod = be.module
         prec = mod.assigns.get("PRECEDENCES")
         pmap = {text(k): text(v) for k, v in zip(prec.keys, prec.values)} if isinstance(prec, ast.Dict) else {}
@@ -579,12 +596,39 @@ def run(repo: Repo) -> Result:
             "left-call": "_str(expression.left, precedence, binding, left=True, operand=True)",
             "right-call": "_str(expression.right, precedence, binding, operand=True)",
         }
+        # the bracket test is read disjunct by disjunct in canonical form (operand order and the
+        # direction a comparison is written in do not matter)
+        from ..guards import canon as _canon
+        from ..guards import conjuncts as _conjuncts
+
+        def cset(txt):
+            return frozenset(_canon(c) for c in _conjuncts(ast.parse(txt, mode="eval").body))
+
+        disj: set = set()
+        for n in ast.walk(inner):
+            if isinstance(n, ast.If) and any(isinstance(r, ast.Return) and isinstance(r.value, ast.JoinedStr) and text(r.value).startswith("f'(") for r in n.body):
+                vals = n.test.values if isinstance(n.test, ast.BoolOp) and isinstance(n.test.op, ast.Or) else [n.test]
+                for v_ in vals:
+                    disj.add(frozenset(_canon(c) for c in _conjuncts(v_)))
+        canon_need = {"left-operand": cset("left and binding <= parent_binding"), "right-operand": cset("operand and not left and binding < parent_binding")}
         for k, frag in need.items():
+            if k in canon_need:
+                if canon_need[k] not in disj:
+                    res.add("C04-PREC", be.qual, k, f"BooleanExpression.__str__ no longer brackets under `{frag}` — the bracket rule that keeps the parser's right grouping", be.file, be.line)
+                continue
             if frag not in src:
                 res.add("C04-PREC", be.qual, k, f"BooleanExpression.__str__ no longer contains `{frag}` — the bracket rule that keeps the parser's right grouping", be.file, be.line)
         # not: bracketed whenever it is an operand
         not_if = next((n for n in ast.walk(inner) if isinstance(n, ast.If) and "LogicalNotExpression" in text(n.test)), None)
-        if not_if is None or "if operand or parent_precedence > PRECEDENCE_PREFIX" not in text(not_if):
+        not_ok = False
+        if not_if is not None:
+            for n in ast.walk(not_if):
+                if isinstance(n, ast.If) and n is not not_if and any(isinstance(r, ast.Return) and isinstance(r.value, ast.JoinedStr) and text(r.value).startswith("f'(") for r in n.body):
+                    vals = n.test.values if isinstance(n.test, ast.BoolOp) and isinstance(n.test.op, ast.Or) else [n.test]
+                    ds = {frozenset(_canon(c) for c in _conjuncts(v_)) for v_ in vals}
+                    if cset("operand") in ds:
+                        not_ok = True
+        if not not_ok:
             res.add("C04-PREC", be.qual, "not-operand", "`not` must be bracketed whenever it is an operand (it swallows everything to its right)", be.file, be.line)
         # comparisons handled by the same rule
         if "_COMPARISONS" not in src or "ContainsExpression" not in src:
@@ -609,7 +653,11 @@ def run(repo: Repo) -> Result:
     # The lexer turns `{% raw %}text{% endraw %}` into a plain content token; the text may contain
     # `{{` / `{%`.  Written back bare it would be read as markup, so the content node's serialiser
     # must re-wrap such text in a raw block (reader/writer agreement for the RAW rule).
-    tk = repo.func("liquid.lex._tokenize_template")
+    from ..normalize import NFunc as _NFn
+    from ..normalize import lexer_canonical as _lexer_canonical
+
+    tk0 = repo.func("liquid.lex._tokenize_template")
+    tk = _NFn(tk0, _lexer_canonical(tk0.node))  # locals named after their definitions (kind = match.lastgroup ...)
     raw_if = None
     for n in ast.walk(tk.node):
         if isinstance(n, ast.If) and isinstance(n.test, ast.Compare) and is_name(n.test.left, "kind") and len(n.test.comparators) == 1 and isinstance(n.test.comparators[0], ast.Constant) and n.test.comparators[0].value == "RAW":
